@@ -13,6 +13,27 @@ NOTE_COMMON = ("Trusted base: Lean 4.33 kernel + axioms ⊆ {propext, Classical.
                "modelled, not verified.")
 
 CLAIMED = {
+    'C01': dict(
+        technique='Lean 4 proof (mutual fuel induction over the volume compiler with caches) + model↔code correspondence + Lean point monitor',
+        text=("Proved in Lean for trees of any size, any number of cells and every sense assignment: pot_flag, "
+              "pot_expand_surfs and pot_optimise keep the Boolean function (None only for a false tree); pot_convert / "
+              "pot_to_t4_cell / convert_cellref — with both caches, fresh ids, helper planes for unions and the "
+              "largest-pure-intersection shortcut, cell references to any depth — return a volume whose denotation is "
+              "the cell's expression; the conversion loop gives every live cell a non-virtual volume under its own "
+              "number or none when the expression is false; hence exactly-one ownership (exactly_one). The Lean model "
+              "is compared with the code on every run (pot_complement, conversion loop, post-processing: canonical "
+              "volume terms) and the Lean reference semantics locates sample points in the written file. Not proved: "
+              "denotation preservation of remove_empty/unused_volumes (stated as a def)."),
+        design_ref='§8 C01'),
+    'C08': dict(
+        technique='Lean 4 proof (loop invariant of remove_empty_volumes, optimise invariant) + Lean reader evaluating WellFormed on the written bytes',
+        text=("Proved in Lean: pot_optimise never leaves an intersection with one surface on both sides; after "
+              "remove_empty_volumes (any dictionary, any queue evolution) and remove_unused_volumes no volume lists a "
+              "surface on both sides. The other clauses (ids unique, references defined, declared counts, one "
+              "composition per volume, COMPOSITION count, finite numbers) are evaluated by the Lean reader on the bytes "
+              "of every file produced by flat / universe / lattice / coincident-surface decks under all option sets; "
+              "closedness after post-processing is stated, not proved."),
+        design_ref='§8 C08'),
     'C11': dict(
         technique='Lean 4 proof (structural/fuel induction over expression trees) + model↔code correspondence + Lean spec monitor',
         text=("Proved for all expressions and all sense assignments in Lean: the PEG parser model returns, on the canonical "
@@ -25,6 +46,25 @@ CLAIMED = {
               "on all 2^n assignments. Not proved: normalize() maps every legal layout to the canonical spelling "
               "(correspondence only)."),
         design_ref='§8 C11'),
+    'C13': dict(
+        technique='Lean 4 proof (fold invariant of de-duplication, fuel induction for inlining) + model↔code correspondence + Lean point monitor under several option sets',
+        text=("Proved in Lean: remove_duplicate_surfaces maps a to b only if both cards have the same definition and b "
+              "is kept; renumbering preserves the denotation of every volume at every point where merged surfaces have "
+              "equal sense; inlining any selection of cell references preserves the Boolean function (so the inline "
+              "score and the --always-inline flags cannot change meaning); the conversion loop theorem of C01 holds for "
+              "every resulting tree. Each generated deck is converted under several option sets and every output is "
+              "checked point-wise against the one MCNP reference; the de-duplication/post-processing model is compared "
+              "with the code."),
+        design_ref='§8 C13'),
+    'C17': dict(
+        technique='Lean 4 proof (decision logic stated outright on the model) + fault injection on the real converter',
+        text=("Proved in Lean for the fault classes whose logic is in the model: a facet index beyond the body's facets "
+              "is rejected (and the error propagates through any enclosing node), a FILL array of the wrong length is "
+              "rejected, IMP cards of unequal length are rejected, a material card mixing signs is rejected. Every fault "
+              "class of the property (incl. m=-1 in TR/TRCL/FILL, --lattice errors, parameter counts of every mnemonic and "
+              "macrobody, unknown mnemonics) is injected at random applicable cards of valid generated decks; the run must "
+              "end with a diagnostic exception class. Fault classes not carried by a theorem are fault-enumeration only."),
+        design_ref='§8 C17'),
 }
 
 NOT_YET = "check under construction (not yet registered)"
